@@ -12,6 +12,9 @@ type Violation struct {
 	Class  string `json:"class"`  // e.g. called-after-abort
 	Sig    string `json:"sig"`    // class + operation + clause/frame: what known_findings matches on
 	Detail string `json:"detail"` // human readable
+	// Payload, if set, is an engine-specific self-contained reproducer (C08:
+	// decoder id + input bytes); replay then uses it instead of a trace.
+	Payload []byte `json:"payload,omitempty"`
 }
 
 // RunResult is what one simulated run reports.
@@ -60,6 +63,7 @@ type Request struct {
 	Trace     vs.Trace `json:"trace,omitempty"`
 	Strict    bool     `json:"strict"`
 	WantTrace bool     `json:"want_trace"`
+	Payload   []byte   `json:"payload,omitempty"`
 }
 
 // Found is a violating run inside a batch.
